@@ -225,7 +225,13 @@ def m_open(I, args, kwargs):
         st.length = 0
         crash_point(I, "open-truncate", key)
     elif mode in ("ab",):
-        raise Undecided("append mode")
+        if not st.exists:
+            st.exists = True
+            st.content = z3.K(IntS, z3.IntVal(0))
+            st.length = 0
+        f = FileObj(key, mode)
+        f.pos = st.length           # O_APPEND: every write goes to the current end (see write())
+        return f
     else:
         raise Undecided("file mode %r" % mode)
     return FileObj(key, mode)
@@ -287,6 +293,8 @@ def file_method(I, f, name):
             raise Undecided("write of string-bytes to a file")
         b = as_sbytes(data)
         st = disk_get(I, f.key)
+        if f.mode == "ab":
+            f.pos = st.length
         pos, ln, dl = to_z3_int(f.pos), to_z3_int(st.length), to_z3_int(b.length)
         if concrete_int(dl) == 0:
             return 0
